@@ -1,7 +1,8 @@
-import Clikit.Lemmas.Sgr
-import Clikit.Lemmas.Markup
-import Clikit.Lemmas.Lex
-import Clikit.Lemmas.Output
+import Clikit.Lemmas.C11Sgr
+import Clikit.Lemmas.C11Markup
+import Clikit.Lemmas.C11Lex
+import Clikit.Lemmas.C11Output
+import Clikit.Lemmas.C11Indent
 /-!
 # C11 - decoration changes only the look: same text, right codes, none when plain
 
@@ -200,7 +201,7 @@ theorem io_delegates (rv : Resolver) (io : IOm) (s : Str) (flags : Option Nat) :
 /-- **Every non-empty line is prefixed by exactly the indentation in force**: what `Output.write`
 hands to the formatter is the text with each non-empty line prefixed by `_indent` spaces and each
 empty line left empty, line by line; with an unformatted output exactly these bytes reach the
-stream.  (That formatting keeps the line prefixes is checked by the correspondence runs.) -/
+stream; `indent_lines_rendered` carries this over to formatted writes. -/
 theorem indent_lines (o : Out) (s : Str) :
     o.indented s true = indentText o.indent s ∧
     splitNl (indentText o.indent s) = (splitNl s).map (indentLine o.indent) ∧
@@ -228,6 +229,29 @@ theorem indent_lines (o : Out) (s : Str) :
     unfold Out.write
     simp only [hw, if_true, hi, Out.format, Out.removeFormat]
     cases fo <;> simp
+
+/-- ... and formatting keeps it: in what a formatted write of a backslash-free text puts on the
+stream - plain, or decorated with the escape sequences stripped - every non-empty line starts
+with the indentation in force (tags contain neither a blank nor a newline, so deleting them
+keeps every line's prefix of blanks). -/
+theorem indent_lines_rendered (rv : Resolver) (st st' : Stack) (n : Nat) (s o : Str) (hb : '\\' ∉ s) :
+    (plainFormat rv st (indentText n s) = .ok (o, st') → LinesIndented n o) ∧
+    (ESC ∉ s → ansiFormat rv st (indentText n s) none = .ok (o, st') → LinesIndented n (stripAnsi o)) := by
+  have hb' : '\\' ∉ indentText n s := by
+    intro h
+    rcases indentText_chars n s _ h with h | h
+    · revert h; decide
+    · exact hb h
+  refine ⟨fun h => plain_keeps_indent rv st st' n _ o hb' (linesIndented_indentText n s) h, ?_⟩
+  intro he h
+  have he' : ESC ∉ indentText n s := by
+    intro h
+    rcases indentText_chars n s _ h with h | h
+    · revert h; decide
+    · exact he h
+  have := message_strip_eq_plain rv st (indentText n s) he' hb'
+  rw [h] at this
+  exact plain_keeps_indent rv st st' n _ _ hb' (linesIndented_indentText n s) this.symm
 
 /-- **Under any nesting of indentation scopes, left normally or by an exception, the
 indentation that held before holds again afterwards**, for every program (so in particular for
